@@ -344,6 +344,51 @@ pub fn const_ladder() -> Vec<(Program, Vec<V>)> {
     out
 }
 
+/// ModLadder: a (mod ..) used as an expression (its value is the compiled program) whose body has binders and helpers
+/// of its own, applied directly, through a let-bound name, through a function taking the program as an argument, and
+/// from inside a function; and a function used as a value whose body has binders.
+pub fn mod_ladder() -> Vec<(Program, Vec<V>)> {
+    use crate::ast::{Expr, Helper, Pat};
+    let v = |n: &str| Expr::Var(n.to_string());
+    let pv = |n: &str| Pat::Var(n.to_string());
+    let lit = |n: i64| Expr::Lit(V::int(n));
+    let x1 = || Expr::Prim(16, vec![v("MX"), lit(1)]);
+    let bodies: Vec<(Vec<Helper>, Expr)> = vec![
+        (vec![], Expr::Prim(18, vec![v("MX"), v("MX")])),
+        (vec![], Expr::Let(false, vec![("MA".into(), x1())], Box::new(Expr::Prim(18, vec![v("MA"), v("MA")])))),
+        (vec![], Expr::Let(true, vec![("MA".into(), x1()), ("MB".into(), Expr::Prim(18, vec![v("MA"), lit(2)]))], Box::new(Expr::Prim(4, vec![v("MA"), v("MB")])))),
+        (vec![], Expr::Assign(vec![(Pat::Cons(Box::new(pv("MA")), Box::new(pv("MB"))), Expr::Prim(4, vec![v("MX"), lit(7)]))], Box::new(Expr::Prim(4, vec![v("MB"), v("MA")])))),
+        (vec![Helper::Defun { name: "msq".into(), pat: Pat::list(vec![pv("MY")], Pat::Nil), body: Expr::Let(false, vec![("MC".into(), v("MY"))], Box::new(Expr::Prim(18, vec![v("MC"), v("MY")]))), inline: false }],
+            Expr::Call("msq".into(), vec![x1()], None)),
+        (vec![], Expr::If(Box::new(v("MX")), Box::new(Expr::Let(false, vec![("MA".into(), x1())], Box::new(v("MA")))), Box::new(lit(9)))),
+    ];
+    let mut out = vec![];
+    for (hs, b) in bodies {
+        let inner = || Expr::Mod(Box::new(Program { args: Pat::list(vec![pv("MX")], Pat::Nil), helpers: hs.clone(), body: b.clone() }));
+        let envs = vec![V::list(&[V::int(5)]), V::list(&[V::nil()])];
+        let args = || Pat::list(vec![pv("P1")], Pat::Nil);
+        let apply = |f: Expr, a: Expr| Expr::Apply(Box::new(f), Box::new(Expr::List(vec![a])));
+        out.push((Program { args: args(), helpers: vec![], body: apply(inner(), v("P1")) }, envs.clone()));
+        out.push((Program { args: args(), helpers: vec![], body: Expr::Let(false, vec![("LM".into(), inner())], Box::new(apply(v("LM"), v("P1")))) }, envs.clone()));
+        out.push((Program { args: args(), helpers: vec![Helper::Defun { name: "appf".into(), pat: Pat::list(vec![pv("F"), pv("W")], Pat::Nil), body: apply(v("F"), v("W")), inline: false }],
+            body: Expr::Call("appf".into(), vec![inner(), v("P1")], None) }, envs.clone()));
+        out.push((Program { args: args(), helpers: vec![Helper::Defun { name: "withm".into(), pat: Pat::list(vec![pv("W")], Pat::Nil), body: apply(inner(), v("W")), inline: false }],
+            body: Expr::Call("withm".into(), vec![v("P1")], None) }, envs.clone()));
+    }
+    // a function used as a value, its body with binders
+    for (k, fbody) in [
+        Expr::Let(false, vec![("FL".into(), v("FV"))], Box::new(v("FL"))),
+        Expr::Let(true, vec![("FL".into(), v("FV")), ("FM".into(), Expr::Prim(4, vec![v("FL"), v("FW")]))], Box::new(v("FM"))),
+        Expr::Assign(vec![(pv("FL"), Expr::Prim(4, vec![v("FV"), v("FW")]))], Box::new(v("FL"))),
+        Expr::If(Box::new(v("FW")), Box::new(Expr::Let(false, vec![("FL".into(), v("FV"))], Box::new(v("FL")))), Box::new(v("FV"))),
+    ].into_iter().enumerate() {
+        let f = Helper::Defun { name: format!("fval{k}"), pat: Pat::list(vec![pv("FV"), pv("FW")], Pat::Nil), body: fbody, inline: false };
+        let body = Expr::Apply(Box::new(v(&format!("fval{k}"))), Box::new(Expr::List(vec![v("P1"), lit(7)])));
+        out.push((Program { args: Pat::list(vec![pv("P1")], Pat::Nil), helpers: vec![f], body }, vec![V::list(&[V::int(5)]), V::list(&[V::list(&[V::int(1), V::int(2)])])]));
+    }
+    out
+}
+
 pub fn gen_opts(profile: &str) -> GenOpts {
     match profile {
         "core" => GenOpts::core(),
@@ -490,6 +535,7 @@ pub fn drive(args: &HashMap<String, String>) {
         progs.extend(rest_and_assign_ladders());
         progs.extend(at_ladder());
         progs.extend(const_ladder());
+        progs.extend(mod_ladder());
         // (TLC's JSON reader stops at 255 levels of nesting: two per addition)
         progs.extend(depth_ladder(n >= 100).into_iter().filter(|(p, _)| crate::util::json_depth(&p.to_json()) < 240));
     }
